@@ -549,7 +549,12 @@ class HWorld:
                 out_tag = ""
             if due:
                 out = "construct:rewrite" + out_tag
-                exp = self.expected_bytes(self.src[0], e.clock.now)
+                try:
+                    exp = self.expected_bytes(self.src[0], e.clock.now)
+                except BaseException as ex:  # noqa
+                    # constructing the same Template over an empty module directory failed
+                    viols.append(("history:construct-exception:%s:empty-module-directory" % type(ex).__name__, "constructing the Template over a missing module succeeds", "Template", repr(ex)[:200]))
+                    return "construct:exception", viols
                 if after != exp:
                     viols.append(("history:rewrite-missing-or-wrong", "a stale/missing/foreign module file is rewritten from the current source", "module for %s" % self.src[0], "unchanged" if after == before else "other bytes"))
                 if self.cfg["writer"]:
